@@ -482,7 +482,8 @@ def lua_quote(v: str) -> str:
 
 def literal_stress_programs():
     """string values that tempt the writer into a long bracket or a wrapped literal, in three positions"""
-    items = [" ", "\t", "a", "]", "]]", "]=]", "=", '"', "'", "\\", "é", "\x0b", "\x0c", "\r", "\x00", "\x7f", "[[", "--", "\n"]
+    items = [" ", "\t", "a", "]", "]]", "]=]", "=", '"', "'", "\\", "é", "\x0b", "\x0c", "\r", "\x00", "\x7f", "[[", "--", "\n",
+             "\u3000", "\x85", "\u2028", "\x1c"]   # blanks / line ends for Python's str methods only
     bases = ["\n" * 5, "l1\nl2\nl3\nl4\nl5\nl6", "\n\n", "word " * 30, "x" * 130]
     for b in bases:
         cut = [0, 1, len(b) // 2, len(b) - 1, len(b)]
@@ -501,6 +502,17 @@ def literal_stress_programs():
             q2 = lua_quote("ab " * (k // 3) + "a" * (k % 3) + it + " cd" * 10)
             yield f"x = {q}"
             yield f"do do f({q}, {q2}) end end"
+
+
+def comment_stress_programs():
+    for ch in ["\x0c", "\x0b", "\x1c", "\x1d", "\x1e", "\x85", "\u2028", "\u2029", "\xa0", "\u3000", "\x00", "\t", ";", "]]", "--"]:
+        yield f"x = 1\n-- a{ch}f()\ny = 2"
+        yield f"x = 1 -- a{ch}f()\ny = 2"
+        yield f"do\n\t-- a{ch}f()\n\t(g)()\nend"
+        yield f"x = 1\n--[==[ a{ch}f() ]==] y = 2"
+        yield f"x = 1\n--[==[ a\n{ch}f()\nb ]==]\ny = 2"
+        yield f"return -- a{ch}f()\n  1"
+        yield f"x = 1\n-- a{ch}f()"
 
 
 def bracket_values(full: bool):
@@ -664,6 +676,9 @@ def program_streams(ctx: fw.Ctx, styles: list, *, check_tree: bool, check_format
         st = ctx.stream("G2 literal stress: values around the long-bracket and wrapping decisions")
         eval_programs(ctx, st, list(literal_stress_programs()), styles, check_tree=check_tree, check_format=True, fixpoint=fixpoint)
         st.exhaustive = True
+        st = ctx.stream("G2 comment stress: comment texts with characters that only Python takes for blanks or line ends, followed by text that would be code")
+        eval_programs(ctx, st, list(comment_stress_programs()), styles, check_tree=check_tree, check_format=True, fixpoint=fixpoint)
+        st.exhaustive = True
         st = ctx.stream("G2 bracket stress: long-bracket values with tempting beginnings, insides and ends, in every position")
         eval_programs(ctx, st, list(bracket_stress_programs(not ctx.quick)), styles, check_tree=check_tree, check_format=True, fixpoint=fixpoint)
         st.exhaustive = True
@@ -813,6 +828,7 @@ def run_c08(ctx: fw.Ctx) -> None:
     progs += ["do do do do x = 'aaaa bbbb cccc \\\\ dddd \\n eeee \\u{1f600} ffff gggg hhhh iiii' end end end end",
               "f(function() return a, b end, {1, 2, {3, 4, function() return 'x', [[y]] end}}, t[function() return a, b end])",
               "-- [[ c1\n--[==[ c2 ]] ]==]\nx = 1 -- c3\n--[[ multi\nline ]] y = 2"]
+    progs += list(comment_stress_programs())
     eval_programs(ctx, st, progs, styles, check_tree=False, check_format=True)
     if not ctx.quick:
         st2 = ctx.stream("all 256 boolean combinations x fixed program set")
@@ -992,7 +1008,9 @@ STR_ITEMS = ["a", "0", "9", "f", "F", "x", "u", "z", " ", "\t", "{", "}", "[", "
              "\\x41", "\\x4a", "\\x7F", "\\x80", "\\xff", "\\x4", "\\xg1", "\\x",
              "\\u{41}", "\\u{0041}", "\\u{e9}", "\\u{4e2d}", "\\u{1F600}", "\\u{10FFFF}", "\\u{110000}", "\\u{7FFFFFFF}",
              "\\u{80000000}", "\\u{000000041}", "\\u{}", "\\u{4g}", "\\u{41", "\\u41", "\\u",
-             "\\q", "\\1a", "\\ ", "\\", "\n", "\"", "'", "é", "中", "😀", "\x00", "\x7f", "\x1b"]
+             "\\q", "\\1a", "\\ ", "\\", "\n", "\"", "'", "é", "中", "😀", "\x00", "\x7f", "\x1b",
+             # characters that Python's str methods / `\d` / int() take for digits, letters or blanks and Lua does not
+             "\u0663", "\uff11", "\u00b2", "\uff21", "\u00a0"]
 
 
 def c05_literals(max_items: int, r: random.Random | None = None, sample: int | None = None):
@@ -1590,8 +1608,7 @@ def c13_case(r: random.Random, nstat: int, nest: int):
             forms = marker_statements(k)
             m, s = r.choice(forms)
             will_wrap = depth > 0 and r.random() < 0.4
-            if (out or will_wrap) and s.startswith("("):
-                s = f"{m}()"
+            needs_semi = (bool(out) or will_wrap) and s.startswith("(")
             if m is None and r.random() < 0.7:
                 m, s = forms[0]
             if will_wrap:
@@ -1600,6 +1617,8 @@ def c13_case(r: random.Random, nstat: int, nest: int):
                 wrap = r.choice([f"do {inner} end", f"while w{k2} do {inner} end", f"if w{k2} then {inner} end",
                                  f"function w{k2}() {inner} end", f"repeat {inner} until w{k2}", f"for w{k2} = 1, 2 do {inner} end"])
                 out.append(wrap)
+            if needs_semi:
+                out[-1] += ";"   # Lua needs it in front of a statement that starts with `(`
             ncom = r.choice([0, 1, 1, 2, 3])
             pre = ""
             for _ in range(ncom):
@@ -1641,7 +1660,7 @@ def run_c13(ctx: fw.Ctx) -> None:
     for text in COMMENT_TEXTS + MULTI_TEXTS:
         for m, s in marker_statements(7):
             k += 1
-            if ctx.quick and k % 3:
+            if ctx.quick and (k + k // 24) % 3:   # a third of the pairs, rotating so that every form meets every third text
                 continue
             sp = comment_spellings(r, text)
             cases.append((f"z0 = 0\n{sp}{s}" if not s.startswith("(") else f"z0 = 0;\n{sp}{s}", [(text.strip(LUA_WS), m)]))
@@ -1924,7 +1943,7 @@ def run_c10(ctx: fw.Ctx) -> None:
     eval_accept(st_s, subs)
     st_s.exhaustive = True
     st_a = ctx.stream("every character string up to a length over a numeral/name/dot alphabet, written WITHOUT blanks (what touches a numeral decides whether it is one)")
-    adj = sorted({pre + "".join(c) + suf for k in range(0, (5 if ctx.quick else 6)) for c in itertools.product(["1", "_", "a", ".", "e", "x", "0", "+", "(", ")", "p"], repeat=k)
+    adj = sorted({pre + "".join(c) + suf for k in range(0, (5 if ctx.quick else 6)) for c in itertools.product(["1", "_", "a", ".", "e", "x", "0", "+", "(", ")", "p", "\u0663"], repeat=k)
                   for pre, suf in (("x = ", ""), ("x = 1", "()"))})
     eval_accept(st_a, adj)
     st_a.exhaustive = True
@@ -2554,8 +2573,28 @@ def expected_inline(tree: dict, refs: dict[str, Any]) -> list[str]:
     return outs
 
 
-def materialise(tree: dict) -> Path:
-    root = Path(tempfile.mkdtemp(prefix="tumfl-verif-tree-"))
+_FIXED_ROOT: Path | None = None
+
+
+def fixed_root() -> Path:
+    """ONE directory per process, emptied before every use: successive file trees live under the same absolute paths with different
+    contents, so anything the resolver remembers about a path from an earlier call (a lookup or parse cache) is stale and shows"""
+    global _FIXED_ROOT
+    if _FIXED_ROOT is None:
+        _FIXED_ROOT = Path(tempfile.mkdtemp(prefix="tumfl-verif-fixed-"))
+        import atexit
+        atexit.register(shutil.rmtree, _FIXED_ROOT, True)
+    _FIXED_ROOT.mkdir(exist_ok=True)
+    for child in list(_FIXED_ROOT.iterdir()):
+        if child.is_dir() and not child.is_symlink():
+            shutil.rmtree(child, ignore_errors=True)
+        else:
+            child.unlink(missing_ok=True)
+    return _FIXED_ROOT
+
+
+def materialise(tree: dict, root: Path | None = None) -> Path:
+    root = root or Path(tempfile.mkdtemp(prefix="tumfl-verif-tree-"))
     for d in tree.get("dirs", []):
         (root / d).mkdir(parents=True, exist_ok=True)
     for p, content in tree["files"].items():
@@ -2568,7 +2607,7 @@ def materialise(tree: dict) -> Path:
 
 def resolve_tree(tree: dict):
     """run the real resolver on a real directory tree: ('ok', ast) | ('dep', e) | ('timeout', None) | ('other', e)"""
-    root = materialise(tree)
+    root = materialise(tree, fixed_root())
     try:
         with quiet():
             try:
